@@ -6,7 +6,7 @@ Import ListNotations.
 Open Scope Z_scope.
 
 (* ------------------------------------------------------------------ the initial state *)
-Lemma WF_init : WF init_topo.
+Lemma WF_init g : WF (init_topo g).
 Proof.
   constructor; cbn [init_topo infos hier nsmap find]; intros; try discriminate.
   unfold children in H. cbn [init_topo hier find] in H.
@@ -112,6 +112,9 @@ Proof.
 Qed.
 
 (* ------------------------------------------------------------------ ValidAddQuota *)
+Lemma gate_add_apply s q : gate_keys (add_apply s q) = gate_keys s.
+Proof. reflexivity. Qed.
+
 Lemma WF_add s pods q : WF s -> add_code s pods q = 0 -> WF (add_apply s q).
 Proof.
   intros W. unfold add_code.
@@ -151,7 +154,7 @@ Proof.
         split; eauto.
       * intros c Hc. destruct (HL c Hc) as [Nc _]. unfold min_of. now rewrite FN.
     + intros n ni p F N NP Fp. rewrite FN in F by exact N. rewrite FN in Fp by exact NP.
-      eapply wf_keys; eauto.
+      rewrite gate_add_apply. eapply wf_keys; eauto.
     + intros n ni p F N NP Fp. rewrite FN in F by exact N. rewrite FN in Fp by exact NP.
       eapply wf_tree; eauto.
     + intros n ni F. rewrite FI in F. destruct (n =? X) eqn:E.
@@ -210,7 +213,7 @@ Proof.
       * intros _ c Hc. exfalso. eapply NOCH; eauto.
       * intros U NP. destruct (PAR NP) as [p [Fp [_ [_ [_ [_ MO]]]]]].
         apply min_ok_parent; auto.
-    + intros n ni p F N NP Fp. rewrite FI in F, Fp. destruct (n =? X) eqn:E.
+    + intros n ni p F N NP Fp. rewrite gate_add_apply. rewrite FI in F, Fp. destruct (n =? X) eqn:E.
       * injection F as <-. destruct (PAR NP) as [p0 [Fp0 [_ [NE [_ [KO _]]]]]].
         rewrite (proj2 (Z.eqb_neq _ _) NE) in Fp. eapply keys_ok_parent; eauto.
       * destruct (wf_parent s W n ni F N NP) as [p0 [Fp0 _]].
@@ -328,7 +331,8 @@ Proof.
       apply min_ok_children; auto. rewrite children_kids. intro E.
       pose proof (wf_child_in_kids s W X c XR Hc) as Hk. rewrite E in Hk. destruct Hk.
     + intros U NP. destruct (PAR NP) as [p [_ [_ [_ [_ [_ MO]]]]]]. apply min_ok_parent; auto.
-  - intros k ki p F N NP Fp. rewrite FI in F, Fp. destruct (Z.eqb_spec k X) as [->|NkX].
+  - intros k ki p F N NP Fp. change (gate_keys s') with (gate_keys s).
+    rewrite FI in F, Fp. destruct (Z.eqb_spec k X) as [->|NkX].
     + injection F as <-. destruct (PAR NP) as [p0 [Fp0 [_ [NE [_ [KO _]]]]]].
       fold B in Fp. rewrite (proj2 (Z.eqb_neq _ _) NE) in Fp. eapply keys_ok_parent; eauto.
     + destruct (Z.eqb_spec (i_parent ki) X) as [EP|NPX'].
@@ -416,7 +420,7 @@ Proof.
     + intros c Hc. unfold min_of. rewrite FI.
       now rewrite (proj2 (Z.eqb_neq _ _) (proj1 (HL' c Hc))).
   - intros k ki p F N NP Fp. destruct (OLD _ _ F) as [NkX F0]. destruct (OLD _ _ Fp) as [_ Fp0].
-    eapply wf_keys; eauto.
+    change (gate_keys s') with (gate_keys s). eapply wf_keys; eauto.
   - intros k ki p F N NP Fp. destruct (OLD _ _ F) as [NkX F0]. destruct (OLD _ _ Fp) as [_ Fp0].
     eapply wf_tree; eauto.
   - intros k ki F. destruct (OLD _ _ F) as [NkX F0]. unfold s'. cbn [hier].
@@ -445,5 +449,5 @@ Qed.
 Lemma WF_fold rs : forall s, WF s -> WF (fold_left step rs s).
 Proof. induction rs as [|r rs IH]; intros s W; cbn [fold_left]; [exact W|apply IH, WF_step, W]. Qed.
 
-Lemma WF_run rs : WF (run rs).
+Lemma WF_run g rs : WF (run g rs).
 Proof. apply WF_fold, WF_init. Qed.
